@@ -119,6 +119,11 @@ META = {
         "detect_vertical, and at None without); (b) every sequence of at most 3 glyphs from a pool of 3 ordinary and 5 gigantic glyphs "
         "(2e9 square around the page, 1e12 wide, 1e9 tall, 1e300 square, gigantic off-page) x boxes_flow {0.5,None} x detect_vertical; "
         "layout and oracle as for the main family, plus a counted budget of 2*10^6 Plane grid steps on the 100x100 page; "
+        "plus the family newline-text (both tiers): every sequence of at most 3 glyphs from a 6-glyph pool that contains glyphs whose "
+        "own text is a line feed or ends in one ('\\n', 'x\\n'), two LAParams, main-family layout and oracle; plus the family "
+        "device-render-char (both tiers): every sequence of at most 3 glyph texts from {'A', '', ' ', '\\n', 'C'} rendered through "
+        "PDFPageAggregator.render_char (stub font) on the page or inside a figure, laparams None / default / boxes_flow None / all_texts: "
+        "every rendered glyph occurs exactly once; "
         "plus the family device-interleave (both tiers): two PDFPageAggregator objects driven through the device API (begin_page, "
         "1-2 nested begin_figure, a glyph, end_figure, a page glyph, end_page), every interleaving of the two call sequences for "
         "nesting depths {1,2}^2, and a fresh device used after the other was abandoned after k calls; laparams None / all_texts; "
@@ -1052,6 +1057,74 @@ def interleave_cases():
                     yield {"family": "device-interleave", "depths": (da, db), "schedule": "A" * k + "B" * lb, "laparams": lap}
 
 
+# ---- family "newline-text": glyphs whose own text is or ends in a line feed (every line must still end in an LTAnno)
+NL_POOL = [POOL[0], POOL[1], ("\n", 26, 40, 8, 8, "h"), ("x\n", 26, 40, 8, 8, "h"), POOL[3], ("\n", 10, 30, 8, 8, "h")]
+NL_PARAMS = [(0.5, False, True) + MARGIN_DEFAULT, (None, True, True) + MARGIN_DEFAULT]
+
+
+# ---- family "device-render-char": glyphs reach the page through PDFLayoutAnalyzer.render_char (stub font), including
+# glyphs whose Unicode text is empty, blank or a line feed; every rendered glyph must occur exactly once in the result
+RC_TEXTS = ["A", "", " ", "\n", "C"]
+RC_LAP = [None, (0.5, False), (None, False), (0.5, True)]   # laparams: None or (boxes_flow, all_texts)
+
+
+class _RcFont:
+    fontname = "Stub"
+
+    def __init__(self, texts):
+        self.texts = texts
+
+    def is_vertical(self):
+        return False
+
+    def get_descent(self):
+        return 0
+
+    def to_unichr(self, cid):
+        return self.texts[cid]
+
+    def char_width(self, cid):
+        return 0.5
+
+    def char_disp(self, cid):
+        return 0
+
+
+def analyse_render_char(case):
+    from pdfminer.converter import PDFPageAggregator
+    from pdfminer.pdfcolor import PREDEFINED_COLORSPACE
+    from pdfminer.pdfinterp import PDFGraphicState, PDFResourceManager
+
+    lap = case["laparams"]
+    laparams = None if lap is None else LAParams(boxes_flow=lap[0], all_texts=bool(lap[1]))
+    texts = list(case["texts"])
+    font = _RcFont(texts)
+    install_stable_id().reset()
+    try:
+        dev = PDFPageAggregator(PDFResourceManager(), laparams=laparams)
+        dev.set_ctm((1, 0, 0, 1, 0, 0))
+        page = _StubPage()
+        dev.begin_page(page, (1, 0, 0, 1, 0, 0))
+        if case["in_figure"]:
+            dev.begin_figure("F", (0, 0, 100, 100), (1, 0, 0, 1, 0, 0))
+        x = 10.0
+        for cid in range(len(texts)):
+            x += dev.render_char((1, 0, 0, 1, x, 40), font, 10, 1, 0, cid, PREDEFINED_COLORSPACE["DeviceGray"], PDFGraphicState())
+        if case["in_figure"]:
+            dev.end_figure("F")
+        dev.end_page(page)
+        got = sorted(t for kind, t, _ in _tree_items(dev.get_result()) if kind == "glyph")
+    except Exception as e:  # noqa
+        return [(exc_signature(e).replace("C08/exception", "C08/device-route:exception"), "device calls succeed", f"{type(e).__name__}: {str(e)[:80]}")], ("exc", type(e).__name__)
+    want = sorted(texts)
+    problems = []
+    if got != want:
+        missing = [t for t in set(want) if got.count(t) < want.count(t)]
+        kind = "lost-item:glyph-with-empty-text" if "" in missing else "lost-item:glyph" if missing else "duplicated-item:glyph"
+        problems.append((f"C08/device-route:{kind}", want, got))
+    return problems, ("render-char", len(got))
+
+
 def shards(tier):
     out = [("short",)]
     out += [("pre", i, j) for i in range(len(POOL)) for j in range(len(POOL))]
@@ -1070,6 +1143,7 @@ def shards(tier):
     out += [("extreme", "params", i) for i in range(len(POOL))] + [("extreme", "giants", i) for i in range(len(GIANT_POOL))]
     out += [("device-forms", i) for i in range(len(DF_BBOX))]
     out += [("device-interleave",)]
+    out += [("newline-text",), ("device-render-char",)]
     return out
 
 
@@ -1105,6 +1179,38 @@ def run_shard(shard, tier, st):
                 st.violation(sig, case, exp, obs, sig.split("/", 1)[1])
         if shard[2:] == ("stack", 50, 0.5):
             st.sample({k: (v if k not in ("glyphs", "pdf") else f"<{len(v)} items>") for k, v in case.items()})
+        return
+    if shard[0] == "newline-text":
+        n = len(NL_POOL)
+        seqs = [(i,) for i in range(n)] + [(i, j) for i in range(n) for j in range(n)] + [(i, j, k) for i in range(n) for j in range(n) for k in range(n)]
+        specs = []
+        for seq in seqs:
+            specs = [NL_POOL[j] for j in seq]
+            st.states += 1
+            for p in NL_PARAMS:
+                check_case(specs, p, st)
+        st.sample({"family": "newline-text", "glyphs": specs, "params": NL_PARAMS[-1]})
+        return
+    if shard[0] == "device-render-char":
+        n = len(RC_TEXTS)
+        seqs = [(i,) for i in range(n)] + [(i, j) for i in range(n) for j in range(n)] + [(i, j, k) for i in range(n) for j in range(n) for k in range(n)]
+        case = None
+        for seq in seqs:
+            st.states += 1
+            for lap in RC_LAP:
+                for in_figure in (False, True):
+                    case = {"family": "device-render-char", "texts": [RC_TEXTS[i] for i in seq], "laparams": lap, "in_figure": in_figure}
+                    problems, outcome = analyse_render_char(case)
+                    st.transitions += 1
+                    if outcome[0] != "exc":
+                        st.traces += 1
+                    st.case(None, nontrivial=True, outcome=(tuple(case["texts"]), lap, in_figure) + tuple(outcome))
+                    seen = set()
+                    for sig, exp, obs in problems:
+                        if sig not in seen:
+                            seen.add(sig)
+                            st.violation(sig, case, exp, obs, sig.split("/", 1)[1])
+        st.sample(case)
         return
     if shard[0] == "device-interleave":
         for k, case in enumerate(interleave_cases()):
@@ -1203,8 +1309,11 @@ def run_shard(shard, tier, st):
 
 
 def replay(case):
-    if case.get("family") in ("deep-chain", "huge", "device-forms", "device-interleave"):
-        if case["family"] == "device-interleave":
+    if case.get("family") in ("deep-chain", "huge", "device-forms", "device-interleave", "device-render-char"):
+        if case["family"] == "device-render-char":
+            case = dict(case, laparams=(None if case["laparams"] is None else tuple(case["laparams"])))
+            problems, _ = analyse_render_char(case)
+        elif case["family"] == "device-interleave":
             case = dict(case, depths=tuple(case["depths"]), laparams=(None if case["laparams"] is None else tuple(case["laparams"])))
             problems, _ = analyse_interleave(case)
         elif case["family"] == "deep-chain":
